@@ -90,10 +90,10 @@ pub fn corrupted(r: &mut Rng) -> Vec<u8> {
         let cut = r.below(d.len() as u64 + 1) as usize;
         d.truncate(cut);
     }
-    if r.chance(1, 20) {
+    if r.chance(1, 20) && d.len() > 5 {
         d[5] = 2; // big endian
     }
-    if r.chance(1, 20) {
+    if r.chance(1, 20) && d.len() > 4 {
         d[4] = 1; // 32-bit class
     }
     d
